@@ -30,7 +30,7 @@ def inject(rng, d):
     by = lambda ts: [n for n in nodes if n[1] in ts]
     kind = rng.choice(["fanin_on_source", "fanin_on_source", "second_driver", "bbout_load", "bbout_nonbuf", "untype", "unsup",
                        "dotted", "drop_pin", "mistype_pin", "undriven", "unloaded", "single_in", "harmless_edge", "harmless_out",
-                       "registry_only", "pin_extra_fanout", "multi_dot_clean", "multi_dot_clean", "dotted_instance", "swap_pin", "swap_pin"])
+                       "registry_only", "pin_extra_fanout", "multi_dot_clean", "multi_dot_clean", "dotted_instance", "swap_pin", "swap_pin", "free_bbout_loads", "free_bbout_loads"])
     if kind == "fanin_on_source":
         c = by(["input", "0", "1", "x", "bb_output"])
         if c and rng.random() < 0.5:
@@ -102,6 +102,15 @@ def inject(rng, d):
             inst = fresh(names, "core.u0")
             nodes.append([inst + ".d", "bb_input", False, [rng.choice(src)]])
             d["bbs"] = d.get("bbs", []) + [[inst, "ff", ["d"], []]]
+    elif kind == "free_bbout_loads":
+        # a bb_output node that belongs to no registered instance (plain name): the load rules apply to every node of that type
+        n = fresh(names, "xo")
+        nodes.append([n, "bb_output", False, []])
+        if rng.random() < 0.5:
+            nodes.append([fresh(names + [n], "xl0"), "buf", True, [n]])
+            nodes.append([fresh(names + [n], "xl1"), "buf", True, [n]])
+        else:
+            nodes.append([fresh(names + [n], "xl0"), rng.choice(["not", "and"]), True, [n]])
     elif kind == "swap_pin":
         # a pin that carries the OPPOSITE pin type while every per-node rule stays satisfied: only the registry check can object
         fo = {f for m in nodes for f in m[3]}
@@ -181,7 +190,7 @@ def gen_raw(rng):
 PRODUCERS = ["limit_fanin", "limit_fanout", "ternary", "miter", "half_adder", "full_adder", "adder", "mux", "popcount",
              "strip_blackboxes", "copy", "relabel", "fill_nested", "subcircuit_nested", "fill_nested", "subcircuit_nested",
              "unroll", "insert_registers", "acyclic_unroll", "sensitization", "verilog_roundtrip", "bench_roundtrip",
-             "remove_unloaded", "remove_unloaded"]
+             "remove_unloaded", "remove_unloaded", "sequential_unroll", "sequential_unroll"]
 
 
 def gen_produced(rng):
@@ -218,6 +227,18 @@ def gen_produced(rng):
         case["k"] = rng.randint(1, 2)
         if fn == "insert_registers" and rng.random() < 0.6:
             case["circuit"] = lib.add_flop(rng, case["circuit"], inst="u_ff")
+    elif fn == "sequential_unroll":
+        # a flop circuit in which an ordinary net carries the name <inst>_<pin> of an ignored pin (a buffered / gated clock)
+        d = lib.rand_dag(rng, rng.randint(2, 3), rng.randint(1, 4), max_fanin=3)
+        inst = rng.choice(["ff", "r0"])
+        d = lib.add_flop(rng, d, inst=inst, clk="clk")
+        if rng.random() < 0.7:
+            d["nodes"].append([f"{inst}_clk", rng.choice(["buf", "not"]), False, ["clk"]])
+            d["nodes"].append(["clk_mon", "not", True, [f"{inst}_clk"]])
+        case["circuit"] = d
+        case["inst"] = inst
+        case["ignore"] = rng.choice(["clk", ["clk"], None])
+        case["k"] = rng.randint(1, 2)
     elif fn == "remove_unloaded":
         # flop whose q buffer feeds only a dead (unloaded, non-output) cone, next to live logic
         d = lib.rand_dag(rng, rng.randint(2, 3), rng.randint(1, 4), max_fanin=3)
@@ -246,7 +267,7 @@ def gen_produced(rng):
 def generate(rng, tier):
     n = 240 if tier == "quick" else 3000
     out = [gen_raw(rng) for _ in range(n // 4)] + [gen_near_clean(rng) for _ in range(n)]
-    out += [gen_produced(rng) for _ in range(n // 5)]
+    out += [gen_produced(rng) for _ in range(n // 2)]
     return out
 
 
@@ -318,6 +339,10 @@ def impl(case):
             else:
                 par.add_subcircuit(ch, inst, conns)
             r = par
+        elif fn == "sequential_unroll":
+            if _lint(c) != "ok":
+                return {"producer_exc": "precondition"}
+            r, _ = cg.tx.sequential_unroll(c, case["k"], "d", "q", ignore_pins=case["ignore"])
         elif fn == "remove_unloaded":
             if _lint(c) != "ok":
                 return {"producer_exc": "precondition"}
